@@ -46,6 +46,7 @@ func init() {
 			need(m, &out, "history_independence_checks", 300)
 			need(m, &out, "muxers_in_lockstep", 100)
 			need(m, &out, "scribbled_runs", 200)
+			need(m, &out, "streams_with_repeated_tables", 30)
 			need(m, &out, "data_built_by_a_retaining_parser", 300)
 			need(m, &out, "size_boundary_alias_runs", 10)
 			return out
@@ -74,6 +75,25 @@ func runC16(c *mon.Ctx) {
 			if i%4 == 0 {
 				s2 = richStream(r)
 			}
+		}
+		if i%5 == 3 {
+			// tables are repeated unchanged over and over in a real stream: every table unit of the model three times in a row
+			per := map[uint16][]*gen.Unit{}
+			counts := map[uint16]int{}
+			for _, p := range m1.PIDs {
+				for rep := 0; rep < 3; rep++ {
+					for _, u := range m1.PerPID[p] {
+						if u.Kind != gen.UnitPSI && rep > 0 {
+							continue
+						}
+						cp := *u
+						per[p] = append(per[p], &cp)
+						counts[p] += len(u.Plan)
+					}
+				}
+			}
+			s1 = gen.Mux(per, gen.RandomOrder(r, counts, m1.PIDs, m1.Hold), m1.CC0)
+			c.Count("streams_with_repeated_tables")
 		}
 		for _, api := range []string{"data", "packet"} {
 			aliasCase(c, i, r, s1, s2, api)
